@@ -39,7 +39,7 @@ def has_sym(a):
 
 
 def _wrap(r):
-    if isinstance(r, _np.ndarray) and r.dtype == object and not isinstance(r, SymArray):
+    if isinstance(r, _np.ndarray) and not isinstance(r, SymArray) and r.ndim > 0:
         return r.view(SymArray)
     if isinstance(r, tuple):
         return tuple(_wrap(x) for x in r)
@@ -90,7 +90,7 @@ def elementwise(f, *arrs):
 def _tidy(out):
     """an object array holding only plain bools becomes a real bool array (usable as a mask on any ndarray)"""
     if out.size and all(isinstance(x, (bool, _np.bool_)) for x in out.flat):
-        return out.astype(bool)
+        return out.astype(bool).view(SymArray)
     return out.view(SymArray)
 
 
@@ -215,6 +215,16 @@ _REDUCERS = {
 HANDLED = {}
 
 
+def _any_object(args, kwargs):
+    def chk(x):
+        if isinstance(x, _np.ndarray):
+            return x.dtype == object
+        if isinstance(x, (list, tuple)):
+            return any(chk(y) for y in x)
+        return is_sym(x) or isinstance(x, Fraction)
+    return any(chk(a) for a in args) or any(chk(v) for v in kwargs.values())
+
+
 def implements(*fs):
     def deco(g):
         for f in fs:
@@ -253,6 +263,10 @@ class SymArray(_np.ndarray):
             o = out[0]
             _np.ndarray.__setitem__(o.view(_np.ndarray) if isinstance(o, SymArray) else o, Ellipsis, _o(res) if isinstance(res, _np.ndarray) else res)
             return o
+        if not any((isinstance(x, _np.ndarray) and x.dtype == object) or is_sym(x) or isinstance(x, Fraction) for x in inputs):
+            plain = [x.view(_np.ndarray) if isinstance(x, SymArray) else x for x in inputs]
+            with _np.errstate(all='ignore'):
+                return _wrap(getattr(ufunc, method)(*plain, **kwargs))
         ins = [_o(x) if isinstance(x, _np.ndarray) else x for x in inputs]
         if method == '__call__' and ufunc in _UFUNCS:
             kwargs.pop('dtype', None)
@@ -273,8 +287,19 @@ class SymArray(_np.ndarray):
         return _wrap(r)
 
     def __array_function__(self, func, types_, args, kwargs):
-        if func in HANDLED:
+        def strip(x):
+            if isinstance(x, SymArray):
+                return x.view(_np.ndarray)
+            if isinstance(x, (list, tuple)):
+                return type(x)(strip(y) for y in x)
+            return x
+        if func in HANDLED and _any_object(args, kwargs):
             return HANDLED[func](*args, **kwargs)
+        with _np.errstate(all='ignore'):
+            r = func(*strip(args), **{k: strip(v) for k, v in kwargs.items()})
+        return _wrap(r)
+
+    def _unused(self, func, types_, args, kwargs):
 
         def strip(x):
             if isinstance(x, SymArray):
@@ -300,21 +325,33 @@ class SymArray(_np.ndarray):
         raise ValueError("The truth value of an array with more than one element is ambiguous.")
 
     def all(self, axis=None, out=None, keepdims=False, **kw):
+        if self.dtype != object:
+            return _wrap(getattr(self.view(_np.ndarray), 'all')(axis=axis, keepdims=keepdims))
         return reduce_axis(sall, self, axis, keepdims)
 
     def any(self, axis=None, out=None, keepdims=False, **kw):
+        if self.dtype != object:
+            return _wrap(getattr(self.view(_np.ndarray), 'any')(axis=axis, keepdims=keepdims))
         return reduce_axis(sany, self, axis, keepdims)
 
     def max(self, axis=None, out=None, keepdims=False, **kw):
+        if self.dtype != object:
+            return _wrap(getattr(self.view(_np.ndarray), 'max')(axis=axis, keepdims=keepdims))
         return reduce_axis(lambda xs: functools.reduce(smax2, xs), self, axis, keepdims)
 
     def min(self, axis=None, out=None, keepdims=False, **kw):
+        if self.dtype != object:
+            return _wrap(getattr(self.view(_np.ndarray), 'min')(axis=axis, keepdims=keepdims))
         return reduce_axis(lambda xs: functools.reduce(smin2, xs), self, axis, keepdims)
 
     def sum(self, axis=None, dtype=None, out=None, keepdims=False, **kw):
+        if self.dtype != object:
+            return _wrap(self.view(_np.ndarray).sum(axis=axis, keepdims=keepdims))
         return reduce_axis(lambda xs: core.ssum(xs), self, axis, keepdims)
 
     def mean(self, axis=None, **kw):
+        if self.dtype != object:
+            return _wrap(self.view(_np.ndarray).mean(axis=axis))
         a = _o(self)
         n = a.size if axis is None else _np.prod([a.shape[ax] for ax in ((axis,) if isinstance(axis, int) else axis)])
         return self.sum(axis=axis) / int(n)
@@ -323,6 +360,8 @@ class SymArray(_np.ndarray):
         return argmax(self, axis=axis)
 
     def astype(self, dtype, **kw):
+        if self.dtype != object:
+            return _wrap(self.view(_np.ndarray).astype(dtype, **kw))
         if dtype is bool or dtype is _np.bool_:
             a = _o(self)
             if not has_sym(a):
@@ -342,13 +381,16 @@ class SymArray(_np.ndarray):
         return _around(self, decimals)
 
     def tolist(self):
-        return _o(self).tolist()
+        return self.view(_np.ndarray).tolist()
 
     def item(self, *a):
-        return _o(self).item(*a)
+        return self.view(_np.ndarray).item(*a)
 
     def copy(self, *a, **k):
         return _np.ndarray.copy(self.view(_np.ndarray)).view(SymArray)
+
+    def view(self, *a, **k):
+        return _np.ndarray.view(self, *a, **k)
 
     def __matmul__(self, o):
         return _matmul(self, o)
@@ -513,12 +555,47 @@ def _solve_vec(A, b, tag):
     return x
 
 
+def _to_frac(x):
+    if isinstance(x, Fraction):
+        return x
+    if isinstance(x, (bool, _np.bool_)):
+        return Fraction(int(x))
+    if isinstance(x, (int, _np.integer)):
+        return Fraction(int(x))
+    return core.nice_fraction(float(x))
+
+
+def _exact_inv(A):
+    """Gauss-Jordan over the rationals (concrete matrices stay exact under the facade)"""
+    n = A.shape[0]
+    M = [[_to_frac(A[i, j]) for j in range(n)] + [Fraction(int(i == j)) for j in range(n)] for i in range(n)]
+    for c in range(n):
+        piv = next((r for r in range(c, n) if M[r][c] != 0), None)
+        if piv is None:
+            raise _np.linalg.LinAlgError("Singular matrix")
+        M[c], M[piv] = M[piv], M[c]
+        pv = M[c][c]
+        M[c] = [x / pv for x in M[c]]
+        for r in range(n):
+            if r != c and M[r][c] != 0:
+                f = M[r][c]
+                M[r] = [x - f * y for x, y in zip(M[r], M[c])]
+    out = _np.empty((n, n), dtype=object)
+    for i in range(n):
+        for j in range(n):
+            v = M[i][n + j]
+            out[i, j] = int(v) if v.denominator == 1 else v
+    return out.view(SymArray)
+
+
 @implements(_np.linalg.solve)
 def _solve(A, b):
     A = _o(A)
     b = _o(b)
     if not has_sym(A) and not has_sym(b):
         return _np.linalg.solve(to_float(A), to_float(b))
+    if not has_sym(A) and A.ndim == 2 and A.shape[0] == A.shape[1] and b.ndim in (1, 2) and b.shape[0] == A.shape[0]:
+        return _wrap(_np.matmul(_o(_exact_inv(A)), b))
     # numpy >= 2 semantics: b is a vector only if b.ndim == 1, else a stack of matrices
     if A.ndim < 2 or A.shape[-1] != A.shape[-2]:
         raise _np.linalg.LinAlgError("Last 2 dimensions of the array must be square")
@@ -551,6 +628,8 @@ def _solve(A, b):
 def _linv(A):
     A = _o(A)
     if not has_sym(A):
+        if A.ndim == 2:
+            return _exact_inv(A)
         return _np.linalg.inv(to_float(A))
     n = A.shape[0]
     c = core.CUR
@@ -638,12 +717,12 @@ class NPFacade(types.ModuleType):
 
     def zeros(self, shape, dtype=None, **kw):
         if dtype in (bool, int, _np.bool_, _np.int64):
-            return _np.zeros(shape, dtype=dtype)
+            return _np.zeros(shape, dtype=dtype).view(SymArray)
         return self._filled(shape, 0)
 
     def ones(self, shape, dtype=None, **kw):
         if dtype in (bool, int, _np.bool_, _np.int64):
-            return _np.ones(shape, dtype=dtype)
+            return _np.ones(shape, dtype=dtype).view(SymArray)
         return self._filled(shape, 1)
 
     def empty(self, shape, dtype=None, **kw):
@@ -656,7 +735,7 @@ class NPFacade(types.ModuleType):
 
     def zeros_like(self, a, dtype=None, **kw):
         if dtype in (bool, int):
-            return _np.zeros(_np.shape(a), dtype=dtype)
+            return _np.zeros(_np.shape(a), dtype=dtype).view(SymArray)
         return self._filled(_np.shape(a), 0)
 
     def ones_like(self, a, dtype=None, **kw):
@@ -675,18 +754,18 @@ class NPFacade(types.ModuleType):
         if dtype in (bool, _np.bool_):
             if has_sym(x):
                 return elementwise(lambda v: v if isinstance(v, _BOOLS) else (v != 0), _np.array(x, dtype=object))
-            return _np.array(x, dtype=bool)
+            return _wrap(_np.array(x, dtype=bool))
         if dtype in (int, _np.int64) and not has_sym(x):
-            return _np.array(x, dtype=int)
+            return _wrap(_np.array(x, dtype=int))
         if isinstance(x, _np.ndarray) and x.dtype != object:
-            return _np.array(x, dtype=dtype, **kw)
+            return _wrap(_np.array(x, dtype=dtype, **kw))
         r = _np.array(x, dtype=object)
         if r.ndim == 0:
             return r.view(SymArray)
         if r.size and all(isinstance(v, (bool, _np.bool_)) for v in r.flat):
-            return r.astype(bool)
+            return r.astype(bool).view(SymArray)
         if r.size and all(isinstance(v, (int, _np.integer)) and not isinstance(v, bool) for v in r.flat) and dtype is None:
-            return r.astype(int)
+            return r.astype(int).view(SymArray)
         return r.view(SymArray)
 
     def asarray(self, x, dtype=None, **kw):
@@ -716,7 +795,7 @@ class NPFacade(types.ModuleType):
     def log(self, a, **k):
         if isinstance(a, _np.ndarray) and a.dtype != object:
             with _np.errstate(divide='ignore'):
-                return _np.log(a)
+                return _wrap(_np.log(a.view(_np.ndarray)))
         if isinstance(a, _np.ndarray):
             return elementwise(_log, a)
         return _log(a)
